@@ -915,6 +915,10 @@ func (ex *Exec) applyContract(p *Path, c *Contract, fn *types.Func, recv *Value,
 			ex.havocEventsOf(p, fi)
 		}
 	}
+	if ex.traceEvents {
+		// the events the callee's own contract talks about happen inside the call: their ghost cells are unknown afterwards
+		ex.havocNamedEvents(p, contractEventNames(c))
+	}
 	for _, m := range c.Modifies {
 		if m == "*" {
 			if ex.havocCalleeWrites(p, fn) {
